@@ -697,12 +697,46 @@ def r2_r3_tokenizers(rep, src):
         rep.ok('C11.R2', ps.site, 'tokenizer and parser output are length-checked', 'len_check_iterator(content, parse_stream(... len_check_iterator(content, tokenizer(content)) ...))')
     else:
         rep.fail('C11.R2', ps.site, 'tokenizer and parser output are length-checked', 'a stage of the list pipeline is no longer guarded by len_check_iterator', where=ps.where)
+    # the check itself, interpreted on model streams of tokens and elements: a stream whose token texts add up to the length of the
+    # content is handed through item by item; one that loses or repeats text ends in an exception
     lc = src.func('_deb822_repro._util:len_check_iterator')
-    t = norm(lc.node)
-    if 'covered += len(token.text)' in t and 'if covered != content_len:' in t and t.count('raise ValueError') >= 2 and 'yield token_or_element' in t:
-        rep.ok('C11.R2', lc.site, 'length check raises on any mismatch', 'covered != content_len → ValueError', nontrivial=False)
+    rep.saw_func(lc)
+    umod = src.mod('_deb822_repro._util')
+    bad = None
+    for label, texts, content, explicit, fine in (
+            ('three tokens that cover the content', ['ab', 'c', 'de'], 'abcde', None, True), ('an element of two tokens and a token', [['ab', 'c'], 'de'], 'abcde', None, True),
+            ('no token for an empty content', [], '', None, True), ('the length given explicitly', ['ab', 'c'], 'abcXX', 3, True),
+            ('a token is lost', ['ab', 'de'], 'abcde', None, False), ('a token is lost inside an element', [['ab'], 'de'], 'abcde', None, False),
+            ('a token is repeated', ['ab', 'c', 'c', 'de'], 'abcde', None, False), ('nothing is emitted', [], 'abcde', None, False),
+            ('more than the explicit length', ['ab', 'c', 'de'], 'abcde', 3, False)):
+        def parts_of(it_, a, k):
+            o_ = it_.h.objs[a[0].name]
+            if '#tokens' not in o_:
+                raise H.Raised('AttributeError', it_.h.version, 0)          # (a token has no parts)
+            return H.PyIter(list(o_['#tokens']))
+        hp_ = H.Heap(umod, extra_modules=[src.mod(PM), src.mod('_deb822_repro.tokens')], hooks={'.iter_tokens': parts_of, '.iter_parts': parts_of, 'cast': lambda it_, a, k: a[1],
+                                                                                                     'textwrap.dedent': lambda it_, a, k: a[0], 'dedent': lambda it_, a, k: a[0]})
+        it_ = H.Interp(hp_)
+        items = []
+        for k_, t_ in enumerate(texts):
+            if isinstance(t_, list):
+                toks_ = [hp_.alloc('Deb822Token', {'text': x_, '_text': x_, '_parent_element': 'set'}) for x_ in t_]
+                items.append(hp_.alloc('Deb822Element', {'#tokens': toks_}, name='@element%d' % k_))
+            else:
+                items.append(hp_.alloc('Deb822Token', {'text': t_, '_text': t_}, name='@token%d' % k_))
+        try:
+            out = it_.seq(it_.call(H.Closure(lc.node, {}, None, None), [content, hp_.new_list(items)] + ([explicit] if explicit is not None else [])))
+            got = 'the items' if out == items else 'other items: %r' % (out,)
+        except H.Raised as x:
+            got = 'raises %s' % x.exc
+        if fine and got != 'the items':
+            bad = bad or '%s: the checked stream %s' % (label, 'gives ' + got if not got.startswith('raises') else got)
+        if not fine and not got.startswith('raises'):
+            bad = bad or '%s (texts %r for the content %r): the checked stream ends without an error' % (label, texts, content)
+    if bad:
+        rep.fail('C11.R2', lc.site, 'length check raises on any mismatch', bad + ': the coverage check no longer rejects lost or duplicated text', where=lc.where)
     else:
-        rep.fail('C11.R2', lc.site, 'length check raises on any mismatch', 'the coverage check no longer rejects lost or duplicated text', where=lc.where)
+        rep.ok('C11.R2', lc.site, 'length check raises on any mismatch', '4 covering and 5 non-covering model streams', nontrivial=False)
 
 
 # ---- R4 write-back -------------------------------------------------------------------------------
